@@ -20,6 +20,8 @@ pub enum Edit {
     BlockRemoved { line: usize },
     /// the `occ`-th quoted name on `line` gets a suffix
     RenameQuoted { line: usize, occ: usize },
+    /// the `occ`-th quoted name on `line` gets a non-ASCII character in front (byte offsets shift)
+    RenameQuotedUnicode { line: usize, occ: usize },
     /// the `tok`-th numeric token on `line` is replaced by text
     NumToText { line: usize, tok: usize },
     /// the `tok`-th numeric token on `line` is replaced by an out-of-range value
@@ -51,6 +53,7 @@ impl Edit {
             Edit::TruncMid { .. } => "disk.truncated_mid_line",
             Edit::BlockRemoved { .. } => "disk.block_removed",
             Edit::RenameQuoted { .. } => "disk.name_renamed",
+            Edit::RenameQuotedUnicode { .. } => "disk.name_renamed_nonascii",
             Edit::NumToText { .. } => "disk.number_to_text",
             Edit::NumOor { .. } => "disk.number_out_of_range",
             Edit::ByteFlip { .. } => "disk.byte_flip",
@@ -70,6 +73,7 @@ impl Edit {
             | Edit::TruncMid { line }
             | Edit::BlockRemoved { line }
             | Edit::RenameQuoted { line, .. }
+            | Edit::RenameQuotedUnicode { line, .. }
             | Edit::NumToText { line, .. }
             | Edit::NumOor { line, .. }
             | Edit::ByteFlip { line, .. }
@@ -481,6 +485,15 @@ pub fn apply(text: &str, e: &Edit) -> Option<String> {
             v[*line] = &newl;
             Some(join(&v))
         }
+        Edit::RenameQuotedUnicode { line, occ } => {
+            let l = get(*line)?;
+            let spans = quoted_spans(l);
+            let (s_, _) = *spans.get(*occ)?;
+            let newl = format!("{}ñ{}", &l[..s_], &l[s_..]);
+            let mut v = lines.clone();
+            v[*line] = &newl;
+            Some(join(&v))
+        }
         Edit::DefRenamed { line } => {
             let l = get(*line)?;
             header_of(l)?;
@@ -602,6 +615,7 @@ pub fn enumerate_c19(file: &CorpusFile, thorough: bool) -> Vec<Variant> {
         }
         for (occ, _) in quoted_spans(l).iter().enumerate() {
             push(Edit::RenameQuoted { line: i, occ });
+            push(Edit::RenameQuotedUnicode { line: i, occ });
         }
         for (tok, _) in numeric_spans(l).iter().enumerate() {
             push(Edit::NumToText { line: i, tok });
